@@ -111,6 +111,22 @@ pub const CFG_ALLOW_UNMATCHED: u16 = 16;
 pub const CFG_CHECK_COMMENTS: u16 = 32;
 pub const CFG_NO_TRIM_CLOSING: u16 = 64;
 pub const CFG_ALL: u16 = 127;
+/// bits 8..=10 of a step's cfg: how many events the *caller* reads from the reader before handing it over
+/// (an application that skips the prolog or an envelope element itself)
+pub const CFG_PRECONSUME_SHIFT: u16 = 8;
+pub const CFG_PRECONSUME_MASK: u16 = 7 << 8;
+
+pub fn preconsume<R: std::io::BufRead>(r: &mut Reader<R>, cfg: u16) {
+    let n = (cfg & CFG_PRECONSUME_MASK) >> CFG_PRECONSUME_SHIFT;
+    let mut buf = Vec::new();
+    for _ in 0..n {
+        match r.read_event_into(&mut buf) {
+            Ok(quick_xml::events::Event::Eof) | Err(_) => break,
+            Ok(_) => {}
+        }
+        buf.clear();
+    }
+}
 
 pub fn apply_cfg<R>(r: &mut Reader<R>, cfg: u16) {
     let c = r.config_mut();
@@ -285,11 +301,13 @@ pub fn deliver(prev: Option<Element<String>>, bytes: &[u8], plan: &Plan, cfg: u1
         if plan.slice {
             let mut reader = Reader::from_reader(bytes);
             apply_cfg(&mut reader, cfg);
+            preconsume(&mut reader, cfg);
             go(prev, &mut reader)
         } else if plan.bufreader_cap > 0 {
             let sim = SimReader::new(bytes, plan);
             let mut reader = Reader::from_reader(BufReader::with_capacity(plan.bufreader_cap, sim));
             apply_cfg(&mut reader, cfg);
+            preconsume(&mut reader, cfg);
             let r = go(prev, &mut reader);
             let sim = reader.into_inner().into_inner();
             stats = sim.stats.clone();
@@ -299,6 +317,7 @@ pub fn deliver(prev: Option<Element<String>>, bytes: &[u8], plan: &Plan, cfg: u1
             let sim = SimReader::new(bytes, plan);
             let mut reader = Reader::from_reader(sim);
             apply_cfg(&mut reader, cfg);
+            preconsume(&mut reader, cfg);
             let r = go(prev, &mut reader);
             let sim = reader.into_inner();
             stats = sim.stats.clone();
@@ -346,9 +365,16 @@ pub struct StepOut {
 pub struct ReplicaOut {
     pub steps: Vec<StepOut>,
     pub getrandom_calls: u64,
+    /// environment variables the code under test read on this replica's thread
+    pub env_read: Vec<String>,
 }
 
 fn run_replica_here(session: &Session, r: &Replica, want: &Want) -> Vec<StepOut> {
+    run_warmup(session, r);
+    run_steps(session, r, want, None, 0, r.steps.len()).0
+}
+
+fn run_warmup(session: &Session, r: &Replica) {
     // veteran thread: earlier, unrelated work on this thread (results discarded)
     let mut junk: Option<Element<String>> = None;
     for st in &r.warmup {
@@ -357,16 +383,25 @@ fn run_replica_here(session: &Session, r: &Replica, want: &Want) -> Vec<StepOut>
         let (d, _, _) = deliver(junk.take(), &bytes, &st.plan, st.cfg);
         junk = match d {
             Delivered::Ok(t) => {
-                let _ = catch_unwind(AssertUnwindSafe(|| t.to_serde_struct(&Options::quick_xml_de())));
+                // rendered with both presets and both sort orders, like an application with several outputs would
+                let _ = catch_unwind(AssertUnwindSafe(|| {
+                    let mut o = Options::serde_xml_rs();
+                    o.sort = SortBy::XmlName;
+                    (t.to_serde_struct(&Options::quick_xml_de()), t.to_serde_struct(&Options::serde_xml_rs()), t.to_serde_struct(&o))
+                }));
                 Some(t)
             }
             _ => keep,
         };
     }
     drop(junk);
-    let mut tree: Option<Element<String>> = None;
+}
+
+/// steps[from..to] of the replica's history, starting from `tree`; returns what was observed and the tree
+fn run_steps(session: &Session, r: &Replica, want: &Want, tree: Option<Element<String>>, from: usize, to: usize) -> (Vec<StepOut>, Option<Element<String>>) {
+    let mut tree = tree;
     let mut outs = Vec::new();
-    for st in &r.steps {
+    for st in &r.steps[from..to] {
         let bytes = session.bytes_of(&st.input);
         // the client keeps its pre-operation clone: extend_struct consumes the tree
         let keep = tree.clone();
@@ -432,7 +467,7 @@ fn run_replica_here(session: &Session, r: &Replica, want: &Want) -> Vec<StepOut>
         }
         outs.push(out);
     }
-    outs
+    (outs, tree)
 }
 
 /// Run every replica of the session, each on a fresh thread with its own entropy, one at a time.
@@ -444,10 +479,43 @@ pub fn run_session(session: &Session, want: &Want) -> Result<Vec<ReplicaOut>, St
         let w = want.clone();
         let e = session.replicas[i].entropy;
         // replicas run one at a time, so the process-global log level is part of the replica's environment
-        crate::set_logging(session.replicas[i].role.starts_with("logging"));
-        let (steps, calls) = crate::entropy::with_entropy(e, move || run_replica_here(&s, &s.replicas[i], &w))?;
+        crate::set_logging(session.replicas[i].role.contains("logging"));
+        // roles starting with "env-" (also after "logging-") run with a populated environment
+        let role = &session.replicas[i].role;
+        let env_on = role.contains("env-");
+        let (steps, calls, env_read) = if role.contains("migrating") {
+            // the tree is `Send`: every delivery of this replica runs on another fresh thread (own entropy, own
+            // thread-locals), the tree travelling from thread to thread like a value handed between workers
+            let mut tree: Option<Element<String>> = None;
+            let mut all = Vec::new();
+            let mut calls = 0;
+            let mut env_read: Vec<String> = Vec::new();
+            for k in 0..session.replicas[i].steps.len() {
+                let s2 = s.clone();
+                let w2 = w.clone();
+                let t = tree.take();
+                let ek = e ^ ((k as u128 + 1) * 0x9E37_79B9_7F4A_7C15);
+                let ((mut outs, t2), c, er) = crate::entropy::with_env(ek, env_on, move || {
+                    if k == 0 {
+                        run_warmup(&s2, &s2.replicas[i]);
+                    }
+                    run_steps(&s2, &s2.replicas[i], &w2, t, k, k + 1)
+                })?;
+                tree = t2;
+                all.append(&mut outs);
+                calls += c;
+                for n in er {
+                    if !env_read.contains(&n) {
+                        env_read.push(n);
+                    }
+                }
+            }
+            (all, calls, env_read)
+        } else {
+            crate::entropy::with_env(e, env_on, move || run_replica_here(&s, &s.replicas[i], &w))?
+        };
         crate::set_logging(false);
-        outs.push(ReplicaOut { steps, getrandom_calls: calls });
+        outs.push(ReplicaOut { steps, getrandom_calls: calls, env_read });
     }
     Ok(outs)
 }
@@ -496,16 +564,19 @@ pub fn expected_verdict(bytes: &[u8], plan: &Plan, cfg: u16, initial: bool) -> c
     if plan.slice {
         let mut reader = Reader::from_reader(bytes);
         apply_cfg(&mut reader, cfg);
+        preconsume(&mut reader, cfg);
         verdict(&mut reader, initial)
     } else if plan.bufreader_cap > 0 {
         let sim = SimReader::new(bytes, plan);
         let mut reader = Reader::from_reader(BufReader::with_capacity(plan.bufreader_cap, sim));
         apply_cfg(&mut reader, cfg);
+        preconsume(&mut reader, cfg);
         verdict(&mut reader, initial)
     } else {
         let sim = SimReader::new(bytes, plan);
         let mut reader = Reader::from_reader(sim);
         apply_cfg(&mut reader, cfg);
+        preconsume(&mut reader, cfg);
         verdict(&mut reader, initial)
     }
 }
